@@ -119,6 +119,19 @@ struct Slots {
     /// (slots in use by tasks other than the owner, owner is waiting inside a pool operation)
     used: shuttle::sync::Mutex<(usize, bool)>,
     cv: shuttle::sync::Condvar,
+    /// open offers of tasks that sit inside `yield_local` / `yield_now`: a job that has not begun takes an offer
+    /// in preference to a free worker and then runs *on the yielding task's worker* (no slot of its own) while the
+    /// yielding task stays suspended until that job has ended - rayon's nested execution.  Protected by `used`.
+    offers: std::sync::Mutex<Vec<Arc<std::sync::atomic::AtomicU8>>>,
+}
+
+const OFFER_OPEN: u8 = 0;
+const OFFER_TAKEN: u8 = 1;
+const OFFER_DONE: u8 = 2;
+
+shuttle::thread_local! {
+    /// the offer this job runs under, if it runs nested inside another task's yield
+    static NESTED: RefCell<Option<Arc<std::sync::atomic::AtomicU8>>> = RefCell::new(None);
 }
 
 struct PoolInner {
@@ -164,6 +177,65 @@ impl PoolInner {
         }
     }
 
+    /// a queued job begins: it takes an open yield offer if there is one, a free worker otherwise; the job stops
+    /// counting as pending in the same step
+    fn acquire_job(&self) {
+        if let (Some(cap), Some(s)) = (self.cap, self.slots.as_ref()) {
+            let mut g = s.used.lock().unwrap();
+            loop {
+                if let Some(o) = s.offers.lock().unwrap().pop() {
+                    o.store(OFFER_TAKEN, Ordering::SeqCst);
+                    NESTED.with(|n| *n.borrow_mut() = Some(o));
+                    break;
+                }
+                let limit = if self.owner.is_some() { cap - 1 + g.1 as usize } else { cap };
+                if g.0 < limit {
+                    g.0 += 1;
+                    break;
+                }
+                g = s.cv.wait(g).unwrap();
+            }
+            let _ = self.pending.fetch_update(Ordering::SeqCst, Ordering::SeqCst, |v| Some(v.saturating_sub(1)));
+        } else {
+            let _ = self.pending.fetch_update(Ordering::SeqCst, Ordering::SeqCst, |v| Some(v.saturating_sub(1)));
+        }
+    }
+
+    /// a job ends
+    fn release_job(&self) {
+        let nested = NESTED.with(|n| n.borrow_mut().take());
+        match (nested, self.slots.as_ref()) {
+            (Some(o), Some(s)) => {
+                let g = s.used.lock().unwrap();
+                o.store(OFFER_DONE, Ordering::SeqCst);
+                drop(g);
+                s.cv.notify_all();
+            }
+            _ => self.release(),
+        }
+    }
+
+    /// `yield_local` / `yield_now` of a task that runs on this pool: true = a queued job ran nested
+    fn yield_nested(&self) -> bool {
+        let s = match self.slots.as_ref() {
+            Some(s) => s,
+            // no limit on workers: every queued job has a worker of its own, nothing is left to run nested
+            None => return false,
+        };
+        let mut g = s.used.lock().unwrap();
+        if self.pending.load(Ordering::SeqCst) == 0 {
+            return false;
+        }
+        let o = Arc::new(std::sync::atomic::AtomicU8::new(OFFER_OPEN));
+        s.offers.lock().unwrap().push(o.clone());
+        s.cv.notify_all();
+        while o.load(Ordering::SeqCst) != OFFER_DONE {
+            g = s.cv.wait(g).unwrap();
+        }
+        drop(g);
+        true
+    }
+
     fn release(&self) {
         if let Some(s) = self.slots.as_ref() {
             let mut g = s.used.lock().unwrap();
@@ -200,6 +272,17 @@ impl Ctx {
     fn release(&self) {
         if let Ctx::Pool(p, _) = self {
             p.release()
+        }
+    }
+    fn acquire_job(&self) {
+        match self {
+            Ctx::Pool(p, _) => p.acquire_job(),
+            Ctx::Global => self.queued(-1),
+        }
+    }
+    fn release_job(&self) {
+        if let Ctx::Pool(p, _) = self {
+            p.release_job()
         }
     }
     /// a job was queued for this pool / a queued job has been picked up by a thread
@@ -303,15 +386,14 @@ where
             ctx.queued(1);
             let body = move || {
                 set_ctx(Some(ctx.clone()));
-                ctx.acquire();
-                ctx.queued(-1);
+                ctx.acquire_job();
                 if !(panicked.load(Ordering::SeqCst) && env_choice()) {
                     if let Err(p) = catch_unwind(AssertUnwindSafe(|| f(it))) {
                         panicked.store(true, Ordering::SeqCst);
                         *slot = Some(p);
                     }
                 }
-                ctx.release();
+                ctx.release_job();
                 set_ctx(None);
             };
             // SAFETY: every handle is joined below; nothing in between unwinds.
@@ -353,10 +435,9 @@ where
         ctxb.queued(1);
         let body = move || {
             set_ctx(Some(ctxb.clone()));
-            ctxb.acquire();
-            ctxb.queued(-1);
+            ctxb.acquire_job();
             *rbs = Some(catch_unwind(AssertUnwindSafe(b)));
-            ctxb.release();
+            ctxb.release_job();
             set_ctx(None);
         };
         // SAFETY: joined below; `a` runs under catch_unwind, nothing else unwinds.
@@ -469,12 +550,11 @@ impl ThreadPool {
         ctx.queued(1);
         let h = shuttle::thread::spawn(move || {
             set_ctx(Some(ctx.clone()));
-            ctx.acquire();
-            ctx.queued(-1);
+            ctx.acquire_job();
             if catch_unwind(AssertUnwindSafe(op)).is_err() {
                 verif::SPAWN_PANICS.with(|c| c.set(c.get() + 1));
             }
-            ctx.release();
+            ctx.release_job();
             set_ctx(None);
         });
         drop(h);
@@ -514,7 +594,7 @@ impl ThreadPool {
     /// calling worker's own forks, is the situation real rayon reports) - `None` outside the pool.
     pub fn yield_local(&self) -> Option<Yield> {
         if verif::controlled() && self.same_pool(&cur_ctx()) {
-            Some(Yield::Idle)
+            Some(if self.inner.yield_nested() { Yield::Executed } else { Yield::Idle })
         } else {
             None
         }
@@ -599,6 +679,7 @@ impl ThreadPoolBuilder {
             Some(Slots {
                 used: shuttle::sync::Mutex::new((0, false)),
                 cv: shuttle::sync::Condvar::new(),
+                offers: std::sync::Mutex::new(Vec::new()),
             })
         } else {
             None
@@ -661,16 +742,22 @@ pub enum Yield {
 }
 
 /// `rayon::yield_local` / `rayon::yield_now`: the controlled runtime has no per-worker queues - a job that has not
-/// begun is a task waiting for a free worker - so a yield never finds work of its own here: it answers `Idle`, which
-/// real rayon answers too whenever the other workers have already taken everything.  What a crate under test does
-/// with jobs it runs nested inside a yield is therefore NOT explored by the controlled runtime; the witnesses on
-/// real rayon (realrayon/) run the real function.
+/// begun is a task waiting for a free worker.  A yield therefore offers the caller's worker to ANY job of its pool
+/// that has not begun (an over-approximation of "this worker's own queue" that only matters to a crate that
+/// yields): if there is one, it runs nested - without a worker of its own, the yielding task suspended until it
+/// has ended - and the answer is `Executed`; if every queued job has already been picked up the answer is `Idle`.
+/// Which of the two happens is decided by the schedule, so both are explored.  On a pool without a thread limit
+/// every job has a worker at once and the answer is always `Idle`.
 pub fn yield_local() -> Option<Yield> {
-    cur_ctx_opt().map(|_| Yield::Idle)
+    match cur_ctx_opt() {
+        Some(Ctx::Pool(p, _)) => Some(if p.yield_nested() { Yield::Executed } else { Yield::Idle }),
+        Some(Ctx::Global) => Some(Yield::Idle),
+        None => None,
+    }
 }
 
 pub fn yield_now() -> Option<Yield> {
-    cur_ctx_opt().map(|_| Yield::Idle)
+    yield_local()
 }
 
 pub fn current_thread_index() -> Option<usize> {
